@@ -893,23 +893,33 @@ Definition compile_image (P : decl_package) : image :=
      im_schemas := flat_map (method_schemas (dp_pkg P)) (all_methods P) ++ dp_schemas P;
      im_roots := [] |}.
 
+(* the paths a list method exposes: the walk over the item object of the response's array *)
+Definition declared_list (g : env) (d : decl_full) : option (list (list str * fty)) :=
+  if is_query_request (df_req d) then
+    match list_root (df_resp d) with
+    | Ok root => match walk_fields (S (length g)) g root [] [] with Ok l => Some l | _ => None end
+    | _ => None
+    end
+  else None.
+
 (* the client method the declaration asks for *)
-Definition declared_client (svc : str) (d : decl_full) : client_method :=
+Definition declared_client (g : env) (svc : str) (d : decl_full) : client_method :=
   {| cm_service := svc ++ bytes_of "Service"; cm_name := df_name d; cm_verb := df_verb d;
      cm_path := join_with SLASH (df_parts d);
      cm_req := fill_request (df_verb d) (join_with SLASH (df_parts d)) (df_req d);
-     cm_resp := df_resp d; cm_list := None |}.
+     cm_resp := df_resp d; cm_list := declared_list g d |}.
 
 Definition declared_clients (P : decl_package) : list client_method :=
-  flat_map (fun s => map (declared_client (fst s)) (snd s)) (dp_services P).
+  flat_map (fun s => map (declared_client (im_schemas (compile_image P)) (fst s)) (snd s)) (dp_services P).
 
 Definition valid_package (P : decl_package) : Prop :=
   (* every method: verb, path segments, request property names as the compiler needs them *)
   Forall (fun d => wf_decl to_snake (df_decl d)) (all_methods P)
   (* method names are unique in the package (they name the request and response messages) *)
   /\ NoDup (map df_name (all_methods P))
-  (* no list methods in this statement (their extra conditions are in walk_fields_terminates) *)
-  /\ Forall (fun d => is_query_request (df_req d) = false) (all_methods P)
+  (* a list method (a j5.list.v1.QueryRequest among the request properties) has exactly one array of
+     object references in its response *)
+  /\ Forall (fun d => is_query_request (df_req d) = true -> exists root, list_root (df_resp d) = Ok root) (all_methods P)
   (* every reference is to a declared schema, every field type is a Field alternative *)
   /\ all_refs_link (im_schemas (compile_image P)) = true
   /\ wf_env (im_schemas (compile_image P))
